@@ -3,8 +3,11 @@ pub mod c01;
 pub mod c02;
 pub mod c03;
 pub mod c04;
+pub mod c05;
 pub mod c06;
 pub mod c08;
+pub mod c09;
+pub mod c10;
 pub mod c11;
 pub mod c12;
 pub mod c13;
@@ -12,6 +15,7 @@ pub mod c14;
 pub mod c15;
 pub mod c16;
 pub mod c17;
+pub mod c18;
 pub mod c20;
 pub mod common;
 
@@ -31,14 +35,18 @@ pub const PROPS: &[Prop] = &[
     Prop { id: "C02", run: c02::run, dbg_part: true, rule: c02::RULE, assumptions: c02::ASSUMPTIONS },
     Prop { id: "C03", run: c03::run, dbg_part: true, rule: c03::RULE, assumptions: c03::ASSUMPTIONS },
     Prop { id: "C04", run: c04::run, dbg_part: false, rule: c04::RULE, assumptions: c04::ASSUMPTIONS },
+    Prop { id: "C05", run: c05::run, dbg_part: false, rule: c05::RULE, assumptions: c05::ASSUMPTIONS },
     Prop { id: "C06", run: c06::run, dbg_part: true, rule: c06::RULE, assumptions: c06::ASSUMPTIONS },
     Prop { id: "C08", run: c08::run, dbg_part: false, rule: c08::RULE, assumptions: c08::ASSUMPTIONS },
+    Prop { id: "C09", run: c09::run, dbg_part: true, rule: c09::RULE, assumptions: c09::ASSUMPTIONS },
+    Prop { id: "C10", run: c10::run, dbg_part: true, rule: c10::RULE, assumptions: c10::ASSUMPTIONS },
     Prop { id: "C12", run: c12::run, dbg_part: true, rule: c12::RULE, assumptions: c12::ASSUMPTIONS },
     Prop { id: "C13", run: c13::run, dbg_part: true, rule: c13::RULE, assumptions: c13::ASSUMPTIONS },
     Prop { id: "C14", run: c14::run, dbg_part: true, rule: c14::RULE, assumptions: c14::ASSUMPTIONS },
     Prop { id: "C15", run: c15::run, dbg_part: false, rule: c15::RULE, assumptions: c15::ASSUMPTIONS },
     Prop { id: "C16", run: c16::run, dbg_part: false, rule: c16::RULE, assumptions: c16::ASSUMPTIONS },
     Prop { id: "C17", run: c17::run, dbg_part: true, rule: c17::RULE, assumptions: c17::ASSUMPTIONS },
+    Prop { id: "C18", run: c18::run, dbg_part: true, rule: c18::RULE, assumptions: c18::ASSUMPTIONS },
     Prop { id: "C20", run: c20::run, dbg_part: true, rule: c20::RULE, assumptions: c20::ASSUMPTIONS },
 ];
 
